@@ -51,7 +51,16 @@ func runSolverCtx(parent context.Context, name, file string, timeout time.Durati
 	_ = cmd.Run()
 	secs := time.Since(t0).Seconds()
 	s := out.String()
-	first := strings.TrimSpace(strings.SplitN(s, "\n", 2)[0])
+	// the verdict is the first line that is not a warning (z3 prints pattern warnings before it)
+	first := ""
+	for _, l := range strings.Split(s, "\n") {
+		l = strings.TrimSpace(l)
+		if l == "" || strings.HasPrefix(l, "WARNING") {
+			continue
+		}
+		first = l
+		break
+	}
 	switch first {
 	case "unsat", "sat", "unknown":
 		return first, s, secs
